@@ -3,7 +3,7 @@
 reverts, and writes seeded/MATRIX.json + seeded/MATRIX.md.  Do not run other checks concurrently."""
 import json, os, subprocess, sys
 ROOT = os.path.dirname(os.path.dirname(os.path.abspath(__file__)))
-REPO = os.environ.get("VERIF_REPO", "/repo")
+REPO = os.environ.get("VERIF_REPO") or os.environ.get("VP_RUN_REPO") or "/repo"
 seeds = sorted(d for d in os.listdir(os.path.join(ROOT, "seeded")) if os.path.isdir(os.path.join(ROOT, "seeded", d)))
 checks = sys.argv[1:] or [f"C{n:02d}" for n in range(1, 20)]
 only = os.environ.get("SEEDS")
